@@ -265,12 +265,25 @@ func c14Wrappers(c *Ctx) {
 		{"(aghrenameio.pendingFile).Cleanup", "(*github.com/google/renameio/v2.PendingFile).Cleanup", "Cleanup removes the temp file"},
 		{"(aghrenameio.pendingFile).Write", "(*os.File).Write", "Write goes to the temp file"},
 	} {
-		fn := p.Fn(x.fn)
+		fn := p.FnRaw(x.fn)
 		if fn == nil || fn.Blocks == nil {
 			r.Undecided("C14-D3", "wrapper:"+x.fn, "-", "anchor not found")
 			continue
 		}
 		// every normal return passes the delegate call, except returns on an error edge after the delegate was called
+		// follow thin wrappers: either one of them is the delegate itself, or the innermost body must call it
+		mf := p.FnRaw(x.must)
+		direct := false
+		for i := 0; i < 4 && core.Impl(fn) != fn; i++ {
+			fn = core.Impl(fn)
+			if mf != nil && (fn == mf || fn == core.Impl(mf)) {
+				direct = true
+			}
+		}
+		if direct {
+			r.Ok("C14-D3", "wrapper:"+x.fn, p.FnPos(fn), x.why+" (it only calls it)")
+			continue
+		}
 		found, tr, _ := core.Reach(core.Query{From: []core.Point{core.Entry(fn)}, Target: core.IsReturn, Avoid: core.IsCallTo(false, x.must)})
 		r.Check(!found, "C14-D3", "wrapper:"+x.fn, p.FnPos(fn), x.why, x.fn+" can return without calling "+x.must, p.TraceString(tr))
 	}
@@ -313,7 +326,7 @@ func c14Typestate(c *Ctx) {
 		if k == kCleanup || k == kClose {
 			return true
 		}
-		if fn := cc.StaticCallee(); fn != nil && final[fn] {
+		if fn := core.Callee(cc); fn != nil && final[fn] {
 			return true
 		}
 		// deferred / called closure literal
